@@ -1,6 +1,7 @@
 package s3afero
 
 import (
+	"bytes"
 	"crypto/md5"
 	"encoding/hex"
 	"errors"
@@ -344,6 +345,18 @@ func (db *SingleBucketBackend) PutObject(
 	if bucketName != db.name {
 		return result, gofakes3.BucketNotFound(bucketName)
 	}
+
+	// Read and validate the whole body (declared size, and Content-MD5 through
+	// the hashing reader) before the destination is touched: the file is
+	// rewritten in place, so an upload that is going to be rejected must not get
+	// as far as truncating the object it would have replaced. This also makes
+	// copying an object onto itself safe, as the source is read completely
+	// before it is truncated.
+	bts, err := gofakes3.ReadAll(input, size)
+	if err != nil {
+		return result, err
+	}
+	input = bytes.NewReader(bts)
 
 	err = gofakes3.MergeMetadata(db, bucketName, objectName, meta)
 	if err != nil {
